@@ -124,6 +124,7 @@ def stepD (ds : DState) (toks : List String) : DState × String :=
     ({ ds with wsrv := v, wheld := held }, s!"{showWires w.toList} | {showStateN v.st}")
   | ["pushall"] => let y := normSys (IstioModel.C03.step ds.sys .pushall); ({ ds with sys := y }, showSys y)
   | ["reconnect"] => let y := normSys (IstioModel.C03.step ds.sys .reconnect); ({ ds with sys := y }, showSys y)
+  | ["pushcut", k] => let y := normSys (IstioModel.C03.step ds.sys (.pushcut (k.toNat?.getD 0))); ({ ds with sys := y }, showSys y)
   | ["out", ty, kind, res, del, used, inc] =>
     match Ty.ofTok ty with
     | none => (ds, "bad-op")
